@@ -241,6 +241,20 @@ func Enumerate(fn *ssa.Function, cfg Config, visit func(*Path)) (Stats, error) {
 		en.start = b
 		st := &state{phi: map[*ssa.Phi]ssa.Value{}, mem: map[ssa.Value]ssa.Value{}, bind: map[ssa.Value]ssa.Value{}, facts: map[ssa.Value]*fact{}}
 		st.fr = &frame{fn: fn, seen: map[*ssa.BasicBlock]bool{}}
+		if b != fn.Blocks[0] {
+			// A segment that starts at a loop header inherits the defers
+			// registered unconditionally before the loop.
+			for _, d := range fn.DomPreorder() {
+				if d == b || !d.Dominates(b) {
+					continue
+				}
+				for _, ins := range d.Instrs {
+					if df, ok := ins.(*ssa.Defer); ok {
+						st.fr.defers = append(st.fr.defers, df)
+					}
+				}
+			}
+		}
 		en.block(st, b, nil)
 		if cfg.EntryOnly {
 			break
